@@ -140,6 +140,12 @@ def t3_case(case):
         rk = list(mr)          # keep the micro problems large enough for ARPACK (k < n - 1)
     guess = spec.rand_tt(rng, rd, [1] * d, rk, kind)
     snaps = [spec.Snap(op), spec.Snap(guess)] + ([spec.Snap(opB)] if gevp else [])
+    if N >= 3 and solver_eff != 'eigs':
+        sig_in = float(0.5 * (w[len(w) // 2] + w[len(w) // 2 - 1]))      # a target inside the spectrum
+        for rep in (2, 3):
+            ok, r_in = c.guarded('post:rayleigh-quotient[%s,target-inside-spectrum]' % tag, lambda: run(guess, rep, sig=sig_in))
+            if ok and spec.wf(r_in[1]):
+                c.close('post:rayleigh-quotient[%s,target-inside-spectrum]' % tag, np.real(r_in[0]), np.real(rq(vec(r_in[1]), A, B)), tol=1e-8, nontrivial=nt)
     lams, res = [], None
     for rep in (1, 2, 3):
         with Monitor(evp, A, B, [], 0, c) as mon:
@@ -150,6 +156,9 @@ def t3_case(case):
             mon.report(tag)
         lam, x, its = res
         lams.append(float(np.real(lam)))
+        if rep > 1 and spec.wf(x):
+            # the reported eigenvalue belongs to the *returned* eigentensor also when several sweeps were made
+            c.close('post:rayleigh-quotient[%s]' % tag, np.real(lam), np.real(rq(vec(x), A, B)), tol=1e-8, nontrivial=nt)
         if rep == 1:
             c.wf(x, 'post:wf(eigentensor)')
             xv = vec(x)
